@@ -283,8 +283,13 @@ func runC15(c *fw.Ctx) {
 		if r.Chance(1, 4) {
 			procs = []int{runtime.NumCPU() + 1, 2*runtime.NumCPU() + 1, 4 * runtime.NumCPU()}[r.Intn(3)]
 		}
+		nested := 0
+		if n <= 100 && r.Chance(1, 3) {
+			nested = 1 + r.Intn(2)
+		}
 		in := func() string {
-			return fmt.Sprintf("ForEachAsync (list=%v) over %d elements at GOMAXPROCS=%d (%d cores, %d other goroutines parked) where every callback waits until all %d callbacks have started", onList, n, procs, runtime.NumCPU(), crowd, n)
+			return fmt.Sprintf("ForEachAsync (list=%v) over %d elements at GOMAXPROCS=%d (%d cores, %d other goroutines parked) where every callback waits until all %d callbacks have started%s", onList, n, procs, runtime.NumCPU(), crowd, n,
+				[]string{"", "; the call is made by each of the two callbacks of an outer List.ForEachAsync", "; the call is made by each of the three callbacks of an outer Object.MapAsync"}[nested])
 		}
 		watchedFor(c, 25*time.Second, in, func() {
 			runtime.GOMAXPROCS(procs)
@@ -298,15 +303,6 @@ func runC15(c *fw.Ctx) {
 				}
 				defer func() { close(park); parked.Wait() }()
 				c.Count("rendezvous_calls_in_a_crowded_process")
-			}
-			var started int64
-			all := make(chan struct{})
-			var once sync.Once
-			body := func() {
-				if atomic.AddInt64(&started, 1) == int64(n) {
-					once.Do(func() { close(all) })
-				}
-				<-all
 			}
 			// element values: distinct numbers, equal numbers, or ONE container instance / a few instances stored at many
 			// positions (elements are elements: equal or identical values do not make their callbacks wait for each other)
@@ -324,19 +320,39 @@ func runC15(c *fw.Ctx) {
 					return []any{a, b, j}[j%3]
 				}
 			}
-			if onList {
-				vals := make([]any, n)
-				for j := range vals {
-					vals[j] = valueOf(j)
+			call := func() {
+				var started int64
+				all := make(chan struct{})
+				var once sync.Once
+				body := func() {
+					if atomic.AddInt64(&started, 1) == int64(n) {
+						once.Do(func() { close(all) })
+					}
+					<-all
 				}
-				at.NewList(vals...).ForEachAsync(func(int, any) { body() })
-			} else {
-				o := at.NewObject()
-				for j := 0; j < n; j++ {
-					o.Set(fmt.Sprintf("k%d", j), valueOf(j))
+				if onList {
+					vals := make([]any, n)
+					for j := range vals {
+						vals[j] = valueOf(j)
+					}
+					at.NewList(vals...).ForEachAsync(func(int, any) { body() })
+				} else {
+					o := at.NewObject()
+					for j := 0; j < n; j++ {
+						o.Set(fmt.Sprintf("k%d", j), valueOf(j))
+					}
+					o.ForEachAsync(func(string, any) { body() })
 				}
-				o.ForEachAsync(func(string, any) { body() })
 			}
+			switch {
+			case nested == 1: // the call is made by the callbacks of another asynchronous call, each with a barrier of its own
+				at.NewList("outer", "call").ForEachAsync(func(int, any) { call() })
+			case nested == 2:
+				at.NewObject("outer", 1, "call", 2, "third", 3).MapAsync(func(string, any) any { call(); return nil })
+			default:
+				call()
+			}
+			c.Count(fmt.Sprintf("rendezvous_nesting/%d", nested))
 			c.Count(fmt.Sprintf("rendezvous_value_shape/%d", shape))
 			c.Count("rendezvous_calls")
 			c.Max("max_simultaneously_active_callbacks", int64(n))
@@ -933,6 +949,15 @@ func protectStr(f func() string) (s string) {
 var readOps = []readOp{
 	{"List.String", func(l at.List, o at.Object) string { return l.String() }},
 	{"List.FormatString", func(l at.List, o at.Object) string { return l.FormatString(2) }},
+	{"List.FormatString(0)", func(l at.List, o at.Object) string { return l.FormatString(0) }},
+	{"Object.FormatString(0)-shape", func(l at.List, o at.Object) string {
+		t := o.FormatString(0)
+		return fmt.Sprint(len(t), strings.Count(t, "\n"))
+	}},
+	{"Object.String-shape", func(l at.List, o at.Object) string {
+		t := o.String()
+		return fmt.Sprint(len(t), strings.Count(t, "\n"))
+	}},
 	{"List.Clone", func(l at.List, o at.Object) string { return stringCanon(l.Clone()) }},
 	{"List.Equals", func(l at.List, o at.Object) string { return fmt.Sprint(l.Equals(l), l.Equals(at.NewList())) }},
 	{"List.SubList", func(l at.List, o at.Object) string { return stringCanon(l.SubList(0, 0)) }},
@@ -1139,7 +1164,18 @@ func c15Readers(c *fw.Ctx, r *rng.R) {
 			want[i] = protectStr(func() string { return op.f(twinL, twinO) })
 		}
 		beforeL, beforeO := stringCanon(twinL), stringCanon(twinO)
-		// plans per goroutine
+		// plans per goroutine; in one case of four every goroutine prints (String and FormatString with several
+		// indents of the same containers at the same time)
+		printersOnly := r.Chance(1, 4)
+		var printerOps []int
+		for i, op := range readOps {
+			if strings.Contains(op.name, "String") {
+				printerOps = append(printerOps, i)
+			}
+		}
+		if printersOnly {
+			c.Count("reader_cases_printing_only")
+		}
 		plans := make([][]int, g)
 		for i := range plans {
 			k := r.Range(5, 25)
@@ -1149,6 +1185,9 @@ func c15Readers(c *fw.Ctx, r *rng.R) {
 			plans[i] = make([]int, k)
 			for j := range plans[i] {
 				plans[i][j] = r.Intn(len(readOps))
+				if printersOnly {
+					plans[i][j] = printerOps[r.Intn(len(printerOps))]
+				}
 			}
 		}
 		var wg sync.WaitGroup
